@@ -252,6 +252,15 @@ impl Circuit for TinyCircuit {
                 c.assert_equal_constant(m, BlsScalar::zero(), Some(self.a * self.b));
                 let _ = c.gate_add(Constraint::new().left(1).right(1).a(a).b(b));
             }
+            3 => {
+                // a long chain of additions: more than 2048 gates, so that the evaluation
+                // domain has 4096 points (the size from which the FFTs run in parallel)
+                let mut acc = c.append_witness(self.a);
+                let b = c.append_witness(self.b);
+                for _ in 0..2100 {
+                    acc = c.gate_add(Constraint::new().left(1).right(1).a(acc).b(b));
+                }
+            }
             _ => {
                 // custom gates: a 4-bit range check and a 1-pair AND
                 let a = c.append_witness(BlsScalar::from(11u64));
@@ -297,12 +306,61 @@ pub fn run_prove(ctx: &mut Ctx, args: &[String]) {
     let pp = PublicParameters::setup((n + 6).next_power_of_two(), &mut srs_rng).expect("setup");
     let (prover, verifier) = Compiler::compile_with_circuit(&pp, b"verif-prove", &circuit).expect("compile");
     let mut rng = ScriptedRng::with_prefix(ctx, "blind", 20);
+    // VERIF_ZERO_BLINDERS=k[,k..]: these draws are the concrete scalar zero (the degenerate
+    // draws of the masking scalars), all other draws stay symbolic
+    if let Ok(z) = std::env::var("VERIF_ZERO_BLINDERS") {
+        for k in z.split(',').filter_map(|x| x.parse::<usize>().ok()) {
+            rng.values[k] = BlsScalar::zero();
+        }
+    }
+    #[cfg(feature = "sym")]
+    {
+        // an explicit decision prefix for the symbolic comparisons of the proving run
+        // (VERIF_SCRIPT=0,0,1,...): used to visit the paths on which a blinder is zero
+        let script: Vec<bool> = std::env::var("VERIF_SCRIPT")
+            .ok()
+            .map(|s| s.split(',').filter(|x| !x.is_empty()).map(|x| x == "1").collect())
+            .unwrap_or_default();
+        dusk_bls12_381::sym::begin_run(&script, false);
+    }
     let r = prover.prove(&mut rng, &circuit);
     ctx.out_json("rng_log", json!(rng.log));
     ctx.out_json("n", json!(n));
     let chals: serde_json::Map<String, Value> =
         PROVER_CHALLENGES.iter().map(|l| (l.to_string(), json!(crate::hex(&seeded(ctx.seed, l))))).collect();
     ctx.out_json("challenges", Value::Object(chals));
+    // VERIF_DEPS_ONLY: report, per proof element, only the set of blinders it depends on
+    // (structural reachability in the term arena); used for large domains where the full
+    // term dump would be too big
+    #[cfg(feature = "sym")]
+    if std::env::var("VERIF_DEPS_ONLY").is_ok() {
+        if let Ok((proof, _)) = &r {
+            let b = proof.to_bytes();
+            let mut deps = serde_json::Map::new();
+            for (i, name) in PROOF_COMMS.iter().enumerate() {
+                let mut c = [0u8; 48];
+                c.copy_from_slice(&b[48 * i..48 * (i + 1)]);
+                let p = G1Affine::from_bytes(&c).expect("own encoding");
+                let vs: Vec<String> = dusk_bls12_381::sym::vars_of(p.sym_lift())
+                    .into_iter().filter(|v| v.starts_with("blind")).collect();
+                deps.insert(name.to_string(), json!(vs));
+            }
+            for (i, name) in PROOF_EVALS.iter().enumerate() {
+                let mut c = [0u8; 32];
+                c.copy_from_slice(&b[528 + 32 * i..528 + 32 * (i + 1)]);
+                let s = BlsScalar::from_bytes(&c).expect("own encoding");
+                let vs: Vec<String> = dusk_bls12_381::sym::vars_of(dusk_bls12_381::sym::id_of(&s))
+                    .into_iter().filter(|v| v.starts_with("blind")).collect();
+                deps.insert(name.to_string(), json!(vs));
+            }
+            ctx.out_json("deps", Value::Object(deps));
+            ctx.out_json("nodes_in_arena", json!(dusk_bls12_381::sym::node_count()));
+        } else if let Err(e) = &r {
+            ctx.out_json("error", json!(format!("{:?}", e)));
+        }
+        ctx.deps_only = true;
+        return;
+    }
     match r {
         Ok((proof, pis)) => {
             let b = proof.to_bytes();
